@@ -362,7 +362,12 @@ func runC06(c *Ctx) {
 						cands[w2.state(1)+" "+ans[0]+" "+ans[1]] = true
 						w2.close()
 					}
-					c.Out.Case(cid, "C06", "skip", "skip")
+					// the model (TCC/FenceRace.lean) runs exactly this interleaving and lists every allowed outcome
+					pfx := "-"
+					if len(prefix) > 0 {
+						pfx = string(prefix)
+					}
+					c.Out.Case(cid, "C06", fmt.Sprintf("race %s %c %c %d", pfx, pa, pb, k), final)
 					ok := cands[final] && ra != "crash" && rb != "crash"
 					c.Out.Oracle(cid, ok, "race_not_serializable", fmt.Sprintf("prefix %q: %c held up at its statement %d while %c ran: ended in [%s], not a serial outcome %v", prefix, pa, k, pb, final, cands))
 					c.Out.Tag(cid, "nontrivial=1")
